@@ -540,7 +540,7 @@ func (st *Std) Client() Client {
 		if st.OnBranch != nil {
 			cur := st.Cur()
 			if fs, ok := cur.Prog.Parent(cur.File, c).(*ast.ForStmt); ok && fs.Cond == c {
-				if r := CanonLoop(info, fs); r != nil {
+				if r := cur.CanonLoop(fs); r != nil {
 					if t, f, ok := st.OnBranch(Branch{Kind: BrRange, Range: r}, s); ok {
 						return t, f
 					}
